@@ -111,7 +111,7 @@ func short(s string) string {
 
 // R01.2 + R01.6
 var ruleNoPanics = &core.Rule{ID: "R01.2", Min: 5,
-	Doc: "no other panic source: every non-comma-ok type assertion is on a sync.Pool value (typed by R04.3); no explicit panic, no recover (so no swallowed panic); no unsafe / reflect / cgo in the module; map writes only on maps the function made or package maps made at initialisation; no conversion of a slice to an array",
+	Doc: "no other panic source: every non-comma-ok type assertion is on a sync.Pool value (typed by R04.3); no explicit panic, no recover (so no swallowed panic); no unsafe / reflect / cgo in the module; map writes only on maps the function made or package maps made at initialisation; conversions of a slice to an array (pointer) are length obligations of R01.1",
 	Run: func(c *core.Ctx, s *core.Sink) {
 		for _, p := range c.ModPkgs {
 			for _, imp := range p.Types.Imports() {
